@@ -18,12 +18,14 @@ def stepC19 (_ : Unit) (toks : List String) : Unit × String :=
     | ["safe", op, k, x, y] =>
       match parseTyC19 k, int? x, int? y with
       | some T, some x, some y =>
+        -- the defined types of the harness (`du8` … `di64`): no case of a type switch over the predeclared types matches them
+        let named := k.startsWith "d"
         match op with
-        | "add" => showRes (SafeAdd T x y)
-        | "sub" => showRes (SafeSub T x y)
-        | "mul" => showRes (SafeMul T x y)
-        | "div" => showRes (SafeDiv T x y)
-        | "shl" => showRes (SafeLeftShift T x y)
+        | "add" => showRes (Entry2.run SafeAdd named T x y)
+        | "sub" => showRes (Entry2.run SafeSub named T x y)
+        | "mul" => showRes (Entry2.run SafeMul named T x y)
+        | "div" => showRes (Entry2.run SafeDiv named T x y)
+        | "shl" => showRes (Entry2.run SafeLeftShift named T x y)
         | _ => "bad-op"
       | _, _, _ => "bad-op"
     | ["corpus", name, k, x, y] =>
@@ -38,7 +40,7 @@ def stepC19 (_ : Unit) (toks : List String) : Unit × String :=
       | _, _, _ => "bad-op"
     | ["search", fn, k] =>
       match parseTyC19 k with
-      | some T => Hive.SafeMathSearch.search fn T
+      | some T => Hive.SafeMathSearch.search fn (k.startsWith "d") T
       | none => "bad-op"
     | ["raw", op, k, x, y] =>
       match parseTyC19 k, int? x, int? y with
